@@ -115,7 +115,7 @@ CLAIMED = {
         'note': 'Chains are seeded samples, not exhaustive; stub frames not compared; PYTHONDONTWRITEBYTECODE=1.',
         'spec': 'Layout.tla, Lines.tla, LineMap.tla, Warn.tla, LinesCat.tla, MC_Lines.tla, MC_LineMap.tla',
         'technique': 'TLA+ model checking (TLC) + spec-to-code replay + state-based line-map validation',
-        'text': 'Lines.tla exports the line every template-owned frame/warning must show for all layouts x planted raise/hop/warning; '
+        'text': 'Lines.tla exports the line every template-owned frame/warning must show for all layouts x planted raise/hop/warning (control-line expressions including the loop prologue); '
                 'LineMap.tla checks EveryEmittedLineMapsHome on the PythonPrinter/full_line_map accounting; Warn.tla checks '
                 'ShownExactlyOnce; cases and seeded include/namespace/inherit chains are rendered on five construction paths and '
                 'RichTraceback records, error templates, format_exceptions, real full_line_map token pairs and shown warnings are '
@@ -195,6 +195,37 @@ CLAIMED = {
                 'memory/file and dogpile.cache, comparing outputs, execution counters and every backend call; seeded random histories '
                 'recorded from real templates are validated against Trace_Cache.tla with all invariants evaluated after every event. '
                 'Bounded, not a proof.'},
+    'C05': {       'design_ref': 'DESIGN.md section 3, C05',
+        'note': 'Trusts TLC, the concretiser, and the context-supplied markers/filters/decorators. Cached defs and the silent spots listed '
+                'in evidence.assumptions are not generated.',
+        'spec': 'Render.tla, MC_Render.tla',
+        'technique': 'TLA+ model checking (TLC) + spec-to-code replay',
+        'text': 'TLC executes the abstract render machine Render.tla on every (program, raise point) of a systematic family (def kind x '
+                'call kind x surrounding construct) and of seeded programs (defs plain/buffered/filtered/decorated, all parameter kinds, '
+                'capture, <%call>/<%ns:def> with body args and nested defs, nesting <= 4), checking StackDiscipline, CallerRestored, '
+                'BufferRestored, NextCallerOnlyAroundCalls, CaptureLeavesOutput, FilterOnce, Balanced in every state; every terminal '
+                "state's expected output tokens, per-mark stack observations and final stacks are compared with render_context() of the "
+                'concretised template. Bounded, not a proof.'},
+    'C13': {       'design_ref': 'DESIGN.md section 3, C13',
+        'note': 'Bounded (<= 12/16 raise points per program); inheritance and cached sections are not covered.',
+        'spec': 'Render.tla, MC_Render.tla',
+        'technique': 'TLA+ model checking (TLC) + spec-to-code replay',
+        'text': 'For every program x raise point (k-th marker, including markers in argument evaluation, filter functions and decorators) '
+                'x handler position (% try at each ancestor level, include_error_handler, error_handler, format_exceptions, caller) TLC '
+                'checks RestoredAtHandler, PartialDiscarded, BufferRestored, CallerRestored, LoopRevert, StackDiscipline, Balanced, '
+                'Propagates in every state of Render.tla and prints the expectation; the real template is rendered for the same raise '
+                'point and output after the handler, stack observations, exception identity, Context state after the failure and a second '
+                'render are compared. Bounded, not a proof.'},
+    'C03': {       'design_ref': 'DESIGN.md section 3, C03',
+        'note': "Trusts TLC and the concretiser's layout choices; the silent spots and known findings are listed in evidence.",
+        'spec': 'Render.tla, MC_Render.tla, PyPrinter.tla',
+        'technique': 'TLA+ model checking (TLC) + spec-to-code replay',
+        'text': 'PyPrinter.tla: TLC enumerates all legal control-line sequences (length <= 6/7, nesting <= 3/4) on the model of '
+                'PythonPrinter.writeline + auto-pass with IndentEqualsNesting/BodyNeverEmpty/NoSpuriousClosure; bound sequences are '
+                'compiled by the real generator and the line indentation of Template.code compared. Render.tla: nested '
+                'if/for-else/while/try/with/<% %>/break/continue/return programs (depth <= 5, any iterable kind, enable_loop on/off/page) '
+                'are executed by TLC per raise point with LoopRevert/LoopStackMatchesNesting checked; output tokens and all loop '
+                'attributes at every mark are compared with the rendered template. Bounded, not a proof.'},
 }
 
 NOT_BUILT_REASON = "check not built yet (build in progress)"
